@@ -134,6 +134,118 @@ def extrapolate_contract(en: E.Engine):
                        z3.ForAll([i], z3.Implies(z3.And(i >= 0, i < n), r.get(i + 1) == y.get(i)))))
 
 
+NAN = z3.Real('nan!missing')
+
+
+def _install_jnp_interp(en):
+  """jnp.interp(x, xp, fp, left, right) for a scalar query, by its documented contract (A8): xp must be increasing (an *obligation* at each
+  call -- numpy / JAX leave unsorted nodes undefined); inside [xp[0], xp[-1]] the two-point linear formula on the bracketing segment (the node
+  value at a node); `left` / `right` outside (default: the end values).  np.nan is a distinguished constant `missing`."""
+  import jax.numpy as jnp
+  import numpy as np
+  from vlib.pyvc.libspec import _reg
+
+  def h_interp(en_, x, xp, fp, left=None, right=None, **k):
+    if k or not (arrays._is_seq(xp) and arrays._is_seq(fp)) or arrays._is_seq(x):
+      raise E.Unsupported('jnp.interp outside the scalar-query subset')
+    arrays._same_length(en_, xp, fp)
+    m = E.to_z3(xp.length)
+    j = z3.Int(en_.fresh_name('j'))
+    ok = en_.ensure('precondition of jnp.interp: the nodes handed to it are strictly increasing (and at least two)',
+                    z3.And(m >= 2, z3.ForAll([j], z3.Implies(z3.And(j >= 0, j + 1 < m), xp.get(j) < xp.get(j + 1)))))
+    if not ok:
+      raise E.Unsupported('jnp.interp on nodes not shown increasing')
+    xr = E._real(x)
+    u = z3.Int(en_.fresh_name('u_interp'))          # index of the bracketing segment [xp[u-1], xp[u]], 1 <= u <= m-1
+    en_.assume(z3.And(u >= 1, u <= m - 1))
+    en_.assume(z3.Implies(z3.And(xr >= xp.get(0), xr <= xp.get(m - 1)), z3.And(xp.get(u - 1) <= xr, xr <= xp.get(u))))
+    val = fp.get(u - 1) + (xr - xp.get(u - 1)) / (xp.get(u) - xp.get(u - 1)) * (fp.get(u) - fp.get(u - 1))
+    is_nan = lambda v: v is not None and not E.is_sym(v) and isinstance(v, float) and v != v
+    lv = NAN if is_nan(left) else (fp.get(0) if left is None else E._real(left))
+    rv = NAN if is_nan(right) else (fp.get(m - 1) if right is None else E._real(right))
+    en_.trusted.add('libspec:jnp.interp(x, xp, fp, left, right): two-point linear formula on a bracketing segment inside the node range, left / right outside; increasing nodes required (A8)')
+    return z3.If(xr < xp.get(0), lv, z3.If(xr > xp.get(m - 1), rv, val))
+  _reg(en, jnp.interp, h_interp, 'jnp.interp (documented contract, A8)')
+  _reg(en, np.interp, h_interp, 'np.interp (documented contract, A8)')
+
+
+def safe_extrap_contract(en: E.Engine, cells=1):
+  """_linear_interp_with_safe_extrap(x, xp, fp, n=cells): inside the node range the piecewise-linear interpolant; up to `cells` extra cells
+  (of the end spacing) beyond each end the linear continuation of the end segment; further out: missing (NaN)."""
+  _install_jnp_interp(en)
+  n, xp, fp, _, _ = _nodes(en)
+  x = en.real('x')
+  en.cover('requires: n >= 2, xp strictly increasing')
+  kind, r = en.invoke(en.load_function(_fn('_linear_interp_with_safe_extrap')), x, xp, fp, cells)
+  if kind == 'raise':
+    en.ensure(f'_linear_interp_with_safe_extrap raises ({r})', False)
+    return
+  u = _u_of(en, n, xp, x)
+  lin = fp.get(u - 1) + (x - xp.get(u - 1)) / (xp.get(u) - xp.get(u - 1)) * (fp.get(u) - fp.get(u - 1))
+  d0, d1 = xp.get(1) - xp.get(0), xp.get(n - 1) - xp.get(n - 2)
+  lo, hi = xp.get(0) - cells * d0, xp.get(n - 1) + cells * d1
+  en.ensure('inside the node range: the two-point linear formula on the bracketing segment', z3.Implies(z3.And(x >= xp.get(0), x <= xp.get(n - 1)), r == lin))
+  en.ensure(f'within {cells} cell(s) of the first spacing to the left: the linear continuation of the first segment',
+            z3.Implies(z3.And(x >= lo, x < xp.get(0)), r == fp.get(0) + (x - xp.get(0)) / d0 * (fp.get(1) - fp.get(0))))
+  en.ensure(f'within {cells} cell(s) of the last spacing to the right: the linear continuation of the last segment',
+            z3.Implies(z3.And(x > xp.get(n - 1), x <= hi), r == fp.get(n - 1) + (x - xp.get(n - 1)) / d1 * (fp.get(n - 1) - fp.get(n - 2))))
+  en.ensure('further out on either side: missing (NaN)', z3.Implies(z3.Or(x < lo, x > hi), r == NAN))
+
+
+def interp_dispatch_contract(en: E.Engine):
+  """interp(x, xp, fp) on a non-TPU host is jnp.interp: the piecewise-linear interpolant with constant continuation."""
+  _install_jnp_interp(en)
+  import jax
+  from vlib.pyvc.libspec import _reg
+  _reg(en, jax.local_devices, lambda en_: [E.Obj(platform='cpu')], 'jax.local_devices() == one cpu device (this host)')
+  n, xp, fp, _, _ = _nodes(en)
+  x = en.real('x')
+  en.cover('requires: n >= 2, xp strictly increasing')
+  kind, r = en.invoke(en.load_function(_fn('interp')), x, xp, fp)
+  if kind == 'raise':
+    en.ensure(f'interp raises ({r})', False)
+    return
+  u = _u_of(en, n, xp, x)
+  lin = fp.get(u - 1) + (x - xp.get(u - 1)) / (xp.get(u) - xp.get(u - 1)) * (fp.get(u) - fp.get(u - 1))
+  en.ensure('default path of interp: two-point linear formula inside the node range', z3.Implies(z3.And(x >= xp.get(0), x <= xp.get(n - 1)), r == lin))
+  en.ensure('default path of interp: constant continuation outside', z3.And(z3.Implies(x < xp.get(0), r == fp.get(0)), z3.Implies(x > xp.get(n - 1), r == fp.get(n - 1))))
+
+
+def replay_safe(w):
+  import numpy as np
+  import jax
+  jax.config.update('jax_enable_x64', True)
+  import jax.numpy as jnp
+  from dinosaur import vertical_interpolation as vi
+  rng = np.random.RandomState(8)
+  msgs = []
+  for n in (2, 3, 6):
+    xp = np.cumsum(rng.uniform(0.3, 1.5, n))
+    fp = rng.randn(n)
+    for cells in (1, 2):
+      d0, d1 = xp[1] - xp[0], xp[-1] - xp[-2]
+      qs = np.concatenate([np.linspace(xp[0] - (cells + 0.5) * d0, xp[-1] + (cells + 0.5) * d1, 41), xp, [xp[0] - cells * d0, xp[-1] + cells * d1]])
+      for q in qs:
+        got = float(vi._linear_interp_with_safe_extrap(q, jnp.asarray(xp), jnp.asarray(fp), cells))
+        if q < xp[0] - cells * d0 - 1e-12 or q > xp[-1] + cells * d1 + 1e-12:
+          ok = np.isnan(got)
+          want = 'nan'
+        elif abs(q - (xp[0] - cells * d0)) < 1e-12 or abs(q - (xp[-1] + cells * d1)) < 1e-12:
+          continue                      # the outermost extended node itself: rounding decides which side it falls on
+        else:
+          if q < xp[0]:
+            want = fp[0] + (q - xp[0]) / d0 * (fp[1] - fp[0])
+          elif q > xp[-1]:
+            want = fp[-1] + (q - xp[-1]) / d1 * (fp[-1] - fp[-2])
+          else:
+            want = float(np.interp(q, xp, fp))
+          ok = abs(got - want) <= 1e-9 * max(1.0, abs(want))
+        if not ok:
+          msgs.append(f'n={n}, cells={cells}, xp={np.round(xp, 4).tolist()}, fp={np.round(fp, 4).tolist()}: query {q:.6f} gives {got}, documented {want}')
+          break
+  return bool(msgs), ('; '.join(msgs[:3]) if msgs else '_linear_interp_with_safe_extrap equals the documented interpolant / continuation / missing value on the sampled queries')
+
+
 def canary_contract(en: E.Engine):
   n, xp, fp, _, _ = _nodes(en)
   x = en.real('x')
@@ -217,6 +329,12 @@ def clauses():
   out += [
       Clause('smt:_extrapolate_left/right/both continue the end spacing (all lengths)', 'smt', [VI + '_extrapolate_left', VI + '_extrapolate_right', VI + '_extrapolate_both'],
              rc(extrapolate_contract, 4), replay=replay_extrapolate, group='pyvc-a'),
+      Clause('smt:_linear_interp_with_safe_extrap (1 cell): interpolant inside, linear continuation for one end cell, missing beyond (all n, all x)', 'smt',
+             [VI + '_linear_interp_with_safe_extrap', VI + '_extrapolate_both'], rc(safe_extrap_contract, 5, cells=1), replay=replay_safe, group='pyvc-b'),
+      Clause('smt:_linear_interp_with_safe_extrap (2 cells): interpolant inside, linear continuation for two end cells, missing beyond (all n, all x)', 'smt',
+             [VI + '_linear_interp_with_safe_extrap', VI + '_extrapolate_both'], rc(safe_extrap_contract, 5, cells=2), replay=replay_safe, group='pyvc-b'),
+      Clause('smt:interp (default, non-accelerator path) == piecewise-linear interpolant with constant continuation (all n, all x)', 'smt', [VI + 'interp'],
+             rc(interp_dispatch_contract, 3), replay=replay_interp, group='pyvc-b'),
       Clause('canary:_dot_interp extrapolates linearly must fail', 'smt', [VI + '_dot_interp'], rc(canary_contract, 1), canary=True, group='pyvc-b'),
   ]
   return out
